@@ -101,6 +101,10 @@ def cases(draw):
         "minimize": draw(st.booleans()),
         "mod": draw(st.sampled_from([3, 5, 7])),
         "target_at": draw(st.one_of(st.none(), st.integers(0, 60))),
+        # who builds the tracker: the algorithm itself, the user with an explicit evaluator, or the
+        # user relying on the tracker's default evaluator (then an earlier search of the same kind
+        # has already run in this process)
+        "tracker": draw(st.sampled_from(["algorithm", "explicit-evaluator", "default-evaluator", "default-evaluator"])),
     }
 
 
@@ -196,10 +200,24 @@ class Budgets(Facet):
             step = build_step(case["step"]) if case["step"] else None
             rec.label("alg:" + case["alg"], "budget:" + case["budget"][0])
             desc = {"spec": spec_str(case["spec"]), "alg": case["alg"], "popsize": case["popsize"], "budget": case["budget"], "step": step_str(case["step"]) if case["step"] else None, "target_at": case["target_at"]}
+            tmode = case.get("tracker", "explicit-evaluator")
+            mk_tracker = {
+                "algorithm": None,
+                "explicit-evaluator": lambda problem: SingleObjectiveProgressTracker(problem, SequentialEvaluator()),
+                "default-evaluator": lambda problem: SingleObjectiveProgressTracker(problem),
+            }[tmode]
+            rec.label("tracker:" + tmode)
+            if tmode == "default-evaluator":
+                # an earlier, unrelated search in the same process, configured the same way
+                try:
+                    w.search("rs", 7, 1, fitness=lambda p: 0.0, tracker=mk_tracker)
+                except Exception:  # noqa: BLE001
+                    pass
+                del invoked[:]
             try:
                 _, best = w.search(
                     case["alg"], 0, case["popsize"], fitness=ff, minimize=case["minimize"],
-                    tracker=lambda problem: SingleObjectiveProgressTracker(problem, SequentialEvaluator()),
+                    tracker=mk_tracker,
                     budget_obj=budget, step=step,
                 )
             except StopSearch as s:
